@@ -7,6 +7,22 @@ use std::io::{BufRead, Write};
 mod consts;
 mod prog;
 mod streams;
+// the crate's own example, compiled from the current source: its StreamPID is the stream assembly of C04
+#[allow(dead_code, unused_imports)]
+pub mod pidex {
+    include!(concat!(env!("RRTK_VERIF_REPO"), "/examples/pid.rs"));
+    pub fn make(
+        input: Reference<dyn Getter<Quantity, ()>>,
+        setpoint: Quantity,
+        kp: Quantity,
+        ki: Quantity,
+        kd: Quantity,
+    ) -> Box<dyn PidLike> {
+        Box::new(StreamPID::new(input, setpoint, kp, ki, kd))
+    }
+    pub trait PidLike: Getter<f32, ()> + Updatable<()> {}
+    impl PidLike for StreamPID {}
+}
 mod wire;
 
 pub const W_PANIC: i64 = 99;
